@@ -146,7 +146,7 @@ class SnepServer(threading.Thread):
                 log.debug("bad request (0x{:02x})".format(request_data[1]))
                 response_code = 0xC2  # nfc.snep.BadRequest
                 response_data = b''
-        except (ndef.DecodeError, UnicodeDecodeError) as error:
+        except (ndef.DecodeError, ValueError) as error:
             log.error(repr(error))
             response_code = 0xC2  # nfc.snep.BadRequest
             response_data = b''
